@@ -12,7 +12,6 @@ import (
 	"context"
 	"crypto/ed25519"
 	"crypto/tls"
-	"encoding/base64"
 	"fmt"
 	"math/rand"
 	"net"
@@ -25,6 +24,7 @@ import (
 	nodetls "github.com/hashicorp/nodeenrollment/tls"
 	"github.com/hashicorp/nodeenrollment/types"
 	"google.golang.org/protobuf/proto"
+	"google.golang.org/protobuf/types/known/structpb"
 
 	"verifharness/engine"
 	"verifharness/world"
@@ -239,5 +239,55 @@ func runChunksThroughListener(c *engine.Ctx) {
 		}
 		r.Count(fmt.Sprintf("listener_layout:pref=%s", lo.Pref), 1)
 	}
-	_ = base64.RawStdEncoding
+	// the library's own client path: requests of growing size built by ClientConfigs (the only
+	// place where the library splits an authentication request) must reach the listener intact
+	// for as long as they fit a ClientHello
+	for _, size := range []int{16, 4000, 16000, 22000, 30000, 40000} {
+		st, _ := structpb.NewStruct(map[string]any{"blob": strings.Repeat("s", size-8) + fmt.Sprintf("%08d", rng.Intn(100000000))})
+		desc := fmt.Sprintf("through-listener|client-configs state %d bytes", size)
+		cfgs, cerr := nodetls.ClientConfigs(s.Ctx, node.Creds, nodeenrollment.WithState(st))
+		r.Eval(desc, true)
+		if cerr != nil || len(cfgs) == 0 {
+			r.Violation("client-refused-payload-that-fits", fmt.Sprintf("ClientConfigs refused an authentication request with %d bytes of state, which fits a ClientHello: %v", size, cerr), map[string]any{"state_bytes": size})
+			continue
+		}
+		total := 0
+		for _, e := range cfgs[0].NextProtos {
+			total += 1 + len(e)
+		}
+		mu.Lock()
+		gotGen = nil
+		mu.Unlock()
+		raw, err := net.Dial("tcp", lw.Addr)
+		if err != nil {
+			r.Broken("chunks listener dial: " + err.Error())
+			return
+		}
+		_ = raw.SetDeadline(time.Now().Add(30 * time.Second))
+		tc := tls.Client(raw, cfgs[0])
+		herr := tc.Handshake()
+		rec, werr := lw.Wait(raw.LocalAddr().String())
+		raw.Close()
+		if werr != nil {
+			r.Inconclusive("watchdog waiting for the server side (chunks through listener, client configs)")
+			return
+		}
+		if rec.Returned && rec.Conn != nil {
+			rec.Conn.Close()
+		}
+		mu.Lock()
+		gg := gotGen
+		mu.Unlock()
+		wit := map[string]any{"state_bytes": size, "alpn_bytes": total, "entries": len(cfgs[0].NextProtos), "client_error": fmt.Sprint(herr), "accept_error": fmt.Sprint(rec.AcceptErr)}
+		got := new(structpb.Struct)
+		switch {
+		case len(gg) == 0:
+			r.Violation("listener-recombination-differs:auth:not-recovered", fmt.Sprintf("the listener did not recover the request ClientConfigs built for %d bytes of state (%d ALPN bytes): %v", size, total, rec.AcceptErr), wit)
+		case proto.Unmarshal(gg[0].ClientState, got) != nil || !proto.Equal(got, st):
+			r.Violation("listener-recombination-differs:auth", fmt.Sprintf("the state recombined by the listener differs from the %d bytes ClientConfigs split", size), wit)
+		default:
+			r.Count("listener_recombined_equal:client-configs", 1)
+			r.Count(fmt.Sprintf("client_configs_state_bytes:%d(alpn %d)", size, total), 1)
+		}
+	}
 }
